@@ -146,8 +146,9 @@ def trailer(facts, res):
         k = n.get("k")
         if k == "MemberExpr" and n.get("dk") == "Field":
             return ("base", n["name"])
-        if k in ("CXXReinterpretCastExpr", "CXXStaticCastExpr", "CStyleCastExpr", "CXXConstCastExpr") and kids(n):
-            return base_of(fn, kids(n)[0], depth + 1)
+        if k in ("CXXReinterpretCastExpr", "CXXStaticCastExpr", "CStyleCastExpr", "CXXConstCastExpr") and kids(n) and "*" in (n.get("tw") or n.get("t") or "") \
+                and "*" in (strip(kids(n)[0]).get("t") or "*"):
+            return base_of(fn, kids(n)[0], depth + 1)       # pointer-to-pointer cast
         if k == "DeclRefExpr" and n.get("dk") == "Var":
             d = local_decl(facts, n["did"])
             if d is not None and kids(d):
@@ -171,8 +172,10 @@ def trailer(facts, res):
                             if r0.get("k") == "DeclRefExpr" and r0.get("did") == cands[0]["params"][args.index(a)]["did"]:
                                 return b0
                     return ("?", n)
-        if k in ("CXXReinterpretCastExpr", "CStyleCastExpr") and "*" not in (n.get("tw") or n.get("t") or "*"):
-            return ("addr", n)
+        for y in walk(n):
+            if y.get("k") in ("CXXReinterpretCastExpr", "CStyleCastExpr") and kids(y) and "*" not in (y.get("tw") or y.get("t") or "*") and "*" in (strip(kids(y)[0]).get("t") or ""):
+                if base_of(fn, kids(y)[0], depth + 1)[0] == "base":
+                    return ("addr", y)
         return ("?", n)
 
     for who, fn in (("writer", w), ("reader", r)):
